@@ -4,6 +4,7 @@ use std::io::{self, BufRead, Write};
 use std::panic;
 
 mod consts;
+mod tables;
 mod proto;
 use proto::*;
 
@@ -116,6 +117,10 @@ fn run_tokens(toks: &[&str]) -> String {
 fn main() {
     if std::env::args().nth(1).as_deref() == Some("--consts") {
         consts::main();
+        return;
+    }
+    if std::env::args().nth(1).as_deref() == Some("--tables") {
+        tables::main();
         return;
     }
     if std::env::args().nth(1).as_deref() == Some("--one-sched") {
